@@ -37,7 +37,7 @@ CHECKS.update({
    text="One real _consider_line of '[@x.<quals> = @y  @m.asbool]' with all 8 qualifier flags, the pre-state of x, the new value y "
         "(Optional ints) and the rest-of-line vote symbolic: write and line result equal the table of docs/assignment.md on every path "
         "(inductive step: covers value sequences of any length within the int window).",
-   design="3/C14", technique="symbolic execution of the real assignment path for all qualifier subsets (CrossHair/z3)"),
+   design="3/C14", engine="E3 AST->z3 + E1 crosshair", technique="AST->SMT translation of the assignment kernel (z3, one query over all qualifier subsets and all Optional[int]) + symbolic execution of the real assignment path"),
 })
 CHECKS.update({
  "C01": dict(
@@ -78,7 +78,47 @@ CHECKS.update({
         "outer comments containing '$'.",
    design="2.2, 3/C17", engine="E2 z3 queries + E1 crosshair", technique="SMT (z3 regular languages / strings) over the extracted grammar + symbolic execution of token callbacks"),
 })
+WEAK = (" The members' symbolic ints are realised when the archive/results are written, so the solver drives a walk over a small "
+        "integer box with one data fixture (weak on data); each path still ends in a z3-checked assertion.")
+CHECKS.update({
+ "C08": dict(
+   text="Relational check over a real CsvPaths in a scratch directory: each member of a 2-3 member group (symbolic thresholds / stop "
+        "line supplied through external functions, symbolic if_all_agree) is run standalone, by collect_paths and by collect_by_line; "
+        "lines, variables, printouts, validity and counters must agree per member and the breadth-first caller must see the "
+        "union/intersection per line.",
+   design="3/C08", technique="relational symbolic execution of standalone / serial / breadth-first runs (CrossHair/z3) over small boxes", note=TB + WEAK),
+ "C09": dict(
+   text="A real named-paths run whose members stop, fail or hit an error on symbolic lines; afterwards the archive is read back: run "
+        "manifest status/all_valid/all_completed/error_count, member meta/vars/errors/manifest, vars.json = variables, errors.json = "
+        "errors, printouts.txt = printouts, data.csv/unmatched.csv = expected lines, fingerprints = sha256 of the bytes on disk.",
+   design="3/C09", technique="symbolic execution of archiving runs + read-back oracle (CrossHair/z3) over small boxes", note=TB + WEAK),
+ "C10": dict(
+   text="z3 integer-arithmetic queries generated from the strftime/strptime literals in the source: over all clock readings directory "
+        "names parse back in chronological order, are injective per second and collision suffixes never reorder seconds. CrossHair: "
+        "3-run histories with symbolic {group, reused instance, same second} choices write one new directory under their own group and "
+        "leave every earlier file byte-identical.",
+   design="2.1, 3/C10", engine="E2 z3 queries + E1 crosshair", technique="SMT (LIA) over format literals from the AST + symbolic execution of run histories", note=TB + WEAK),
+ "C12": dict(
+   text="cvc5 word-equation query built from the join f-string and split marker in the source: the stored group file splits back into "
+        "exactly its members (<= 20 chars). CrossHair: selection by identity ('g#id', '$g.csvpaths.id', ':from', ':to', key precedence) "
+        "over a symbolic index box for 3 members; manifest grows by one entry iff content changed and fingerprints the stored file.",
+   design="2.3, 3/C12", engine="E2 cvc5 query + E1 crosshair", technique="SMT (strings, cvc5) over literals from the AST + symbolic execution of PathsManager", note=TB + WEAK),
+ "C18": dict(
+   text="A real named-paths run under a 'raise' policy with the abort point (member, line) symbolic incl. 'none', for serial and "
+        "breadth-first methods: exception reaches the caller, run manifest not complete, started members have readable "
+        "meta/vars/errors naming the line and completed false, earlier members intact, inputs stores byte-identical, a second run on "
+        "the same instance archives in its own directory.",
+   design="3/C18", technique="symbolic execution of aborting runs + read-back oracle (CrossHair/z3) over the abort-point box", note=TB + WEAK),
+ "C20": dict(
+   text="Chains of 3 filters with source-mode preceding and symbolic thresholds: each member's data.csv equals the fold over its "
+        "predecessor's output and its manifest names that file. References from a later group: $g.variables.v[.k], $g.headers.h "
+        "(ragged rows) and '$g.results.:last.a' as a file after one or two runs with symbolic values.",
+   design="3/C20", technique="symbolic execution of chained runs and reference resolution (CrossHair/z3) over small boxes", note=TB + WEAK),
+})
 NA = {
+ "C11": "a history of OS/C-library effects (copy, rename, sha256, json) on concrete bytes: nothing symbolic remains; enumeration of histories is outside solver-based checking (DESIGN 4)",
+ "C19": "process-global state and on-disk cache round-trips through the C-level csv/json modules: CrossHair realises everything at those boundaries, nothing symbolic remains (DESIGN 4)",
+
 }
 def main():
     props = [json.loads(l)["id"] for l in open(os.path.join(V, "properties.jsonl"))]
@@ -106,7 +146,8 @@ def main():
                   "source_commits": [], "add_only": True},
         "engines": [
             {"name": "E1 crosshair+z3", "path": "vp/worker.py", "serves_properties": sorted(CHECKS), "kind_free_text": "symbolic execution of csvpath's own python objects; z3 decides every branch and assertion"},
-            {"name": "E2 z3 queries", "path": "harness/c17_grammar.py", "serves_properties": ["C17"], "kind_free_text": "solver queries generated from artefacts compiled into the source (Lark grammar, format literals)"},
+            {"name": "E3 AST->z3", "path": "vp/e3_pyk2smt.py", "serves_properties": ["C14"], "kind_free_text": "translation of a loop-free python kernel (read with inspect/ast) into z3 terms; one query over all qualifier subsets and all Optional[int] operands"},
+            {"name": "E2 z3 queries", "path": "harness/c17_grammar.py", "serves_properties": ["C10", "C12", "C17"], "kind_free_text": "solver queries generated from artefacts compiled into the source (Lark grammar, format literals)"},
         ],
         "checks": checks,
         "notes": "exit 0 discharged / 1 VIOLATION (replayed natively) / 3 inconclusive. known_findings.json lists recorded and fixed defects.",
